@@ -130,6 +130,7 @@ def main(argv=None):
             cases.append({"tid": f"sch-{name}", "project": proj, "seed": args.seed, "k": k})
         for i in range(n):
             g = Gen(args.seed * 100003 + i + 300)
+            g.features["clobber"] = 0.0
             cases.append({"tid": f"sch{args.seed}-{i}", "project": g.project(), "seed": args.seed * 7 + i, "k": k})
         for c in hard_conflict_projects(args.seed, n // 2):
             cases.append({"tid": "sch-" + c["tid"], "project": c["project"], "seed": args.seed, "k": 4,
@@ -147,6 +148,7 @@ def main(argv=None):
         for i in range(n // 2):
             g = Gen(args.seed * 100003 + i + 7000)
             g.features["fail"] = 0.0
+            g.features["clobber"] = 0.0
             g.features["late_subplan"] = 0.0
             proj = g.project()
             hcases.append({"tid": f"hs{args.seed}-{i}", "project": proj, "seed": args.seed * 3 + i, "k": 3,
